@@ -47,16 +47,16 @@ checks = {
    "For gap limits 2,3(,4): every history of address requests of both classes, payments to issued addresses, reorganisations removing payments and restarts up to the stated depth; each NewAddress outcome is compared with the issuing rule and with an independent derivation of the next address; in every state the listings, used flags and the ledger are compared with the reference and three mnemonic restores into a fresh second instance must rediscover every address with best-chain history.",
    "§5 C12"),
  "C18": (FE, "faultenum", "exhaustive storage-fault enumeration (every fallible database call index x repeat count of every base history) through a db seam",
-   "For the shortest history of every state of the C01 space up to the base depth, and of a second space with API operations and background steps (mnemonic import, rescan batches, removal call and run, NewAddress, restart), each fallible wallet-database call in turn (and runs of 2/3 consecutive calls) returns an error; an operation that reported failure is repeated once storage works again (the worker's own re-queueing is modelled from what the step returned); afterwards every wallet must be ready or gone, no phantom wallet or skipped/duplicated address may exist, and all ledger queries must equal the reference ledger. A third, directed pass injects the fault below the ldb backend (every LevelDB journal write of 6 histories fails in turn; restart, catch-up, same oracle).",
+   "For the shortest history of every state of the C01 space up to the base depth, and of a second space with API operations and background steps (mnemonic import, rescan batches, removal call and run, NewAddress, restart), each fallible wallet-database call in turn (and runs of 2/3 consecutive calls) returns an error; an operation that reported failure is repeated once storage works again (the worker's own re-queueing is modelled from what the step returned); afterwards every wallet must be ready or gone, no phantom wallet or skipped/duplicated address may exist, and all ledger queries must equal the reference ledger. A relay pass makes relayed (unconfirmed) transactions fault targets (pool transactions are announced again after the catch-up and the pending set is compared). A directed pass injects the fault below the ldb backend (every LevelDB journal write of 6 histories fails in turn; restart, catch-up, same oracle).",
    "§5 C18"),
  "C19": (MC, "apienum", "exhaustive product of per-parameter domains for every API method in 9 reachable wallet states, under recover, plus malformed relays",
    "For each of 24 reachable wallet states (among them: between two rescan batches of an import with a credit already recorded) and each of the 28 request-taking API methods the full product of small per-field domains (derived from the request type by reflection, largest domains trimmed only above the cap) is executed on the real APIServer over the real wallet under recover() with FATAL trapping, followed by a follower liveness probe (imports get a fresh valid mnemonic per call, so every combination of the other parameters meets a wallet that can still be imported; index hints around and far beyond the gap window); in every state 20 block contents the simulator can build and 12 malformed relayed transactions go to the follower entry point, which must survive and apply the next tip.",
    "§5 C19"),
  "C17": (MC, "schedexplore", "exhaustive placement enumeration of follower commits among a query's database reads on the instrumented real code (controlled scheduler + db seam gates) with a sequential-twin oracle; auxiliary free-running -race pass",
-   "For 24 scenarios (4 queries x 6 writers; 17 more in the thorough tier) every placement of the follower's 1-4 block commits (connects, pay+spend, reorgs) among the database reads of WalletBalance, AddressBalance, GetUtxo and AutoCreateRawTransaction is executed on the real code; the answer must equal the answer of the same call run alone at a block boundary inside its window. The data-race clause is covered only by a sampling race-detector pass (auxiliary, not exhaustive).",
+   "For 27 scenarios (4 queries x 6 writers; 17 more in the thorough tier) every placement of the follower's 1-4 block commits (connects, pay+spend, reorgs) among the database reads of WalletBalance, AddressBalance, GetUtxo and AutoCreateRawTransaction is executed on the real code; the answer must equal the answer of the same call run alone at a block boundary inside its window. The data-race clause is covered only by a sampling race-detector pass (auxiliary, not exhaustive).",
    "§5 C17"),
  "C20": (MC, "schedexplore", "stateless DFS with iterative preemption bounding over a cooperative controlled scheduler on the instrumented real follower/worker/stop code",
-   "The real NtfnsHandler (handle, worker, suspend/resume, task queue, Stop) is rebuilt with every sync primitive, goroutine start and channel operation routed through a controlled scheduler (source overlay generated from the current tree). For 24 scenarios (import or removal started by an API thread or resumed from a restart, 0-2 tips announced by a node thread - the first one paying the wallet being imported -, with and without a concurrent stop request; imports of one or of several rescan batches - batch size scaled through a source overlay -, an API thread that submits three more tasks while a multi-batch import is running, and one storage error reported to the real worker/follower in the middle of their work) every schedule with at most the stated number of preemptions runs to completion on a fresh real wallet; each execution is checked for deadlock, abnormal thread end, livelock, stop returning with the database closed exactly once, and (without stop) for every announced tip processed, every accepted task finished (no wallet left importing or marked for removal) and the ledger equal to the reference.",
+   "The real NtfnsHandler (handle, worker, suspend/resume, task queue, Stop) is rebuilt with every sync primitive, goroutine start and channel operation routed through a controlled scheduler (source overlay generated from the current tree). For 27 scenarios (import or removal started by an API thread or resumed from a restart, 0-2 tips announced by a node thread - the first one paying the wallet being imported -, with and without a concurrent stop request; imports of one or of several rescan batches - batch size scaled through a source overlay -, an API thread that submits three more tasks while a multi-batch import is running, one storage error reported to the real worker/follower in the middle of their work, and API write calls racing with the worker's task) every schedule with at most the stated number of preemptions runs to completion on a fresh real wallet; each execution is checked for deadlock, abnormal thread end, livelock, stop returning with the database closed exactly once, and (without stop) for every announced tip processed, every accepted task finished (no wallet left importing or marked for removal) and the ledger equal to the reference.",
    "§5 C20"),
  "C13": (MC, "enum", "bounded-exhaustive input enumeration against an independent BIP-39 reference",
    "Input-bounded model checking: every member of the described entropy / word-sequence families is run through the real mnemonic code and compared with an independent reference validated against BIP-39 vectors.", "§5 C13"),
